@@ -368,8 +368,6 @@ def reachable_mutables(root: Any, limit: int = 200000) -> dict[int, tuple[str, A
                 stack.append((f"{path}.{s}", getattr(o, s)))
             except AttributeError:
                 pass
-        if isinstance(o, dict.__class__):
-            continue
         if isinstance(o, Mapping):
             try:
                 for k, x in o.items():
